@@ -1,4 +1,6 @@
 #!/bin/bash
-# re-runs the property check against every kept seeded change (3 at a time) and rewrites seeded/<id>/meta.json with the current result
+# re-runs the property check against every kept seeded change (3 at a time) from the files kept under seeded/<id>/ and rewrites
+# seeded/<id>/meta.json with the current result (first_run_checks is preserved)
 cd /verif
-for d in seeded/*/; do n=$(basename $d); p=${n%%-*}; m=${n##*-}; echo "$p /tmp/mutwt/out/$p/$m $n"; done | xargs -P 3 -L 1 bash -c 'python3 /verif/tools/mutcheck.py $0 $1 $2 > /verif/findings/mut/final-$2.log 2>&1; tail -1 /verif/findings/mut/final-$2.log'
+mkdir -p findings/mut
+for d in seeded/*/; do n=$(basename $d); p=${n%%-*}; echo "$p /verif/seeded/$n $n"; done | xargs -P ${MUT_PAR:-3} -L 1 bash -c 'python3 /verif/tools/mutcheck.py $0 $1 $2 > /verif/findings/mut/final-$2.log 2>&1; tail -1 /verif/findings/mut/final-$2.log'
